@@ -331,7 +331,63 @@ def library_sleepers_scenario(sh: Shard, seed, idx):
         w.close()
 
 
+def two_loops_scenario(sh: Shard, seed, idx):
+    """Sleepers on TWO event loops of one process (one manager per loop), both pumped by hand from this
+    thread - no clock involved: after a switch every sleeper, on whichever loop, has woken within a few
+    iterations although it asked for a thousand seconds."""
+    import geckolib.config as C
+    from vlib.aworld import reset_geckolib_globals
+
+    r = rng("C17two", seed, idx)
+    reset_geckolib_globals()
+    loops = [asyncio.new_event_loop() for _ in range(r.choice([2, 2, 3]))]
+    woke, tasks = set(), []
+
+    def pump(rounds=6):
+        for _ in range(rounds):
+            for lp in loops:
+                lp.run_until_complete(asyncio.sleep(0))
+
+    async def sleeper(k):
+        await C.config_sleep(1000.0)
+        woke.add(k)
+
+    try:
+        order = list(range(len(loops))) * r.choice([1, 2])
+        r.shuffle(order)
+        for n_, li in enumerate(order):
+            tasks.append((n_, li, loops[li].create_task(sleeper(n_))))
+            pump(2)
+        early = set(woke)
+        active = r.random() < 0.5
+        C.set_config_mode(active)
+        pump()
+        sh.evaluations += 1
+        sh.count("two_loop_scenarios")
+        wit = {"scenario": f"{seed}:{idx}:two-loops", "loops": len(loops), "sleepers_on_loops": order}
+        if early:
+            sh.violation("C17:overslept", f"sleepers {sorted(early)} on several event loops woke before any switch", wit)
+        asleep = [(n_, li) for n_, li, _ in tasks if n_ not in woke]
+        if asleep:
+            sh.violation("C17:missed-switch", f"after the mode switch the sleepers {asleep} (sleeper, loop) of a process with {len(loops)} event loops are still asleep (they asked for 1000 s)", wit)
+        check_table(sh, active, "set_config_mode", wit)
+        sh.nontrivial(f"two-loops:{seed}:{idx}")
+    finally:
+        for _, _, t in tasks:
+            t.cancel()
+        try:
+            pump(2)
+        except Exception:
+            pass
+        for lp in loops:
+            lp.close()
+        asyncio.set_event_loop(None)
+        reset_geckolib_globals()
+
+
 def shard(sh: Shard, seed, lo, hi, nf):
+    for idx in range(lo, lo + 3):
+        two_loops_scenario(sh, seed, idx)
     for idx in range(lo, lo + max(2, nf // 3)):
         library_sleepers_scenario(sh, seed, idx)
     for idx in range(lo, hi):
@@ -362,6 +418,7 @@ def main(tier, seed):
             if m not in vars(cls) and aud is not None and getattr(cls, m, None) != aud:
                 run.violation(f"C17:table:incomplete:{cls.__name__}:{m}", f"the {cls.__name__} table no longer states {m}: selecting that mode installs the inherited {getattr(cls, m, None)!r} (the mode's own value was {aud!r}) - a mixture of tables", {"class": cls.__name__, "member": m})
     run.extra["table_members_checked"] = list(C.CONFIG_MEMBERS)
+    run.need(run.counters.get("two_loop_scenarios", 0) >= 10, "no sleepers on two event loops of one process")
     run.need(run.counters.get("wakes_by_switch", 0) > 200 and run.counters.get("wakes_by_timeout", 0) > 200, "too few wakes by switch / by timeout")
     run.need(run.counters.get("library_sleepers_woken", 0) > 40, "the library's own sleepers (ping loop, retry pause) were hardly probed")
     run.need(run.counters.get("sleepers_cancelled_mid_sleep", 0) > 20, "no sleeper was cancelled in the middle of a sleep")
